@@ -323,6 +323,8 @@ pub fn structural_mutants(rec: &Rec, r: &mut impl RngCore) -> Vec<(&'static str,
             ("other-id", Item::S(b"V4".to_vec())),
             ("other-id", Item::S(Vec::new())),
             ("other-id", Item::S(b"v4\x00".to_vec())),
+            ("other-id", Item::S(vec![0xff, 0xfe])),
+            ("other-id", Item::S(vec![b'v', 0x80])),
             ("id-as-list", Item::L(vec![Item::S(b"v4".to_vec())])),
             ("id-as-list", Item::L(vec![])),
         ] {
@@ -616,6 +618,29 @@ pub fn size_sweep(rec: &Rec) -> Vec<(&'static str, Vec<u8>)> {
     for target in (253..=262usize).chain(290..=310) {
         if let Some(r2) = pad_to(rec, b"pad", target) {
             out.push((if target <= 300 { "size-le-300" } else { "size-gt-300" }, r2.bytes()));
+        }
+    }
+    out
+}
+
+/// Well-formed, validly signed records of 64 KiB and more (sizes where a length truncated to 16 bits would look
+/// small again).
+pub fn giant_records(key: &RefKey) -> Vec<(&'static str, Vec<u8>)> {
+    let mut out = Vec::new();
+    for target in [65_536usize, 65_537, 65_600, 65_836, 131_072 + 120, 70_000, 4_000] {
+        let mut rec = Rec::minimal(*key, 1);
+        // the padding length that gives exactly `target`: header lengths are constant in this range
+        rec.map.insert(b"pad".to_vec(), Item::S(vec![0xa5; target]));
+        let s0 = rec.size();
+        let over = s0 - target;
+        rec.map.insert(b"pad".to_vec(), Item::S(vec![0xa5; target - over]));
+        for adj in 0..6usize {
+            let mut r2 = rec.clone();
+            r2.map.insert(b"pad".to_vec(), Item::S(vec![0xa5; target - over + adj - 3.min(target - over)]));
+            if r2.size() == target {
+                out.push(("size-giant", r2.bytes()));
+                break;
+            }
         }
     }
     out
